@@ -7,7 +7,9 @@
   * Series.to_sympy / Parallel.to_sympy (real code on symbolic complex values): the expression is the sum, resp. the
     reciprocal of the sum of reciprocals, of the children's expressions, each child asked with the shared identifier map --
     the same composition law as the numeric impedance (C01), hence symbolic == numeric for whole circuits.
-LaTeX, CircuiTikZ, schemdraw and to_stack are only explored by the bounded layer (see known findings)."""
+  * to_drawing (schemdraw) and to_circuitikz: every nested function of the two layout routines under contract, verified by
+    structural induction over the connection tree with pyvc.hoare (E5) -- see contracts/diagrams.py.
+LaTeX rendering and to_stack are only explored by the bounded layer (see known findings)."""
 from __future__ import annotations
 
 import itertools
@@ -161,4 +163,5 @@ _targets_before_observers = targets
 
 def targets():      # noqa: F811
     from . import purity
-    return _targets_before_observers() + [purity.target_observers(["circuit/base", "circuit/series", "circuit/parallel", "circuit/circuit", "circuit/circuit_builder", "circuit/transmission_line_model"], "circuit observers keep no state")]
+    from . import diagrams
+    return _targets_before_observers() + [purity.target_observers(["circuit/base", "circuit/series", "circuit/parallel", "circuit/circuit", "circuit/circuit_builder", "circuit/transmission_line_model"], "circuit observers keep no state")] + diagrams.targets()
